@@ -325,12 +325,21 @@ impl<'a> Lexer<'a> {
         self.s.eat_while(char::is_alphabetic);
         let ident = self.s.from(ident_start);
 
+        // as in llvm's lexer, a directive word is a directive only when whitespace, the end of
+        // the file or a comment follows it; otherwise `#` is the paste operator and the word
+        // starts the next token (`a#else2`, `a#define_x`)
+        let is_word_end = match self.s.peek() {
+            None | Some(' ' | '\t' | '\n' | '\r') => true,
+            Some('/') => matches!(self.s.scout(1), Some('/' | '*')),
+            Some(_) => false,
+        };
+
         match ident {
-            "ifdef" => T![#ifdef],
-            "ifndef" => T![#ifndef],
-            "else" => T![#else],
-            "endif" => T![#endif],
-            "define" => T![#define],
+            "ifdef" if is_word_end => T![#ifdef],
+            "ifndef" if is_word_end => T![#ifndef],
+            "else" if is_word_end => T![#else],
+            "endif" if is_word_end => T![#endif],
+            "define" if is_word_end => T![#define],
             _ => {
                 self.s.jump(ident_start);
                 T![#]
